@@ -423,3 +423,7 @@ func And(a, b bool) bool { return a && b }
 
 // Or is a non-short-circuit disjunction (no fork under the engine).
 func Or(a, b bool) bool { return a || b }
+
+// Stub replaces the named function of the code under test by fn while the engine runs
+// (no effect natively, where the harness realises the same structure with real values).
+func Stub(name string, fn interface{}) {}
